@@ -267,9 +267,9 @@ def run(ctx):
         if not ok:
             ctx.violations.append(Violation("corpus case fails: " + msg, obj, stream="corpus"))
     if not ctx.violations:
-        explore(ctx, ctx.subrng("past-d"), ctx.budget(400, 6000))
+        explore(ctx, ctx.subrng("past-d"), ctx.budget(900, 8000))
     if not ctx.violations:
-        modular_stream(ctx, ctx.subrng("modular"), ctx.budget(150, 1500))
+        modular_stream(ctx, ctx.subrng("modular"), ctx.budget(300, 2500))
 
 
 def search(ctx):
